@@ -52,7 +52,7 @@ Section Rt.
     assert (Hg : get T i = Some e) by exact He.
     unfold get_det. rewrite Hg. cbn [option_map].
     pose proof (proj1 Hok i e Hg) as Hd.
-    destruct (e_det e) as [n dv tag vs dn bes|n dv ps dn|n dv t c|? ? ?|t|?|t|k v|?|? ?|?| | |?|?| | |?];
+    destruct (e_det e) as [n dv tag vs dn bes|n dv ps dn|n dv t c|? ? ?|t|?|t|k v|t|t ?|?| | |?|?| | |?];
       cbn [det_ok] in Hd; try contradiction; cbn [node_ok children forallb andb]; try reflexivity.
     - (* enum *)
       destruct tag; try contradiction.
@@ -75,6 +75,8 @@ Section Rt.
       rewrite (idok_in v Hv). rewrite andb_true_r.
       assert (Hkin : mem_id k (all_ids T) = true) by (apply mem_id_In; exact (lookup_id_dom _ _ _ Hk)).
       rewrite Hkin. reflexivity.
+    - (* set *) rewrite (idok_in t Hd). reflexivity.
+    - (* array *) rewrite (idok_in t Hd). reflexivity.
   Qed.
 End Rt.
 
